@@ -230,13 +230,32 @@ func genRetry(spec retrySpec, tier string) []fw.Case {
 					cs = append(cs, fw.Mk(fmt.Sprintf("pairs/%s/%d", name, i), c))
 				}
 			} else if spec.PairsSample > 0 {
-				c.Mode, c.N, c.Part, c.Of = "pairsample", spec.PairsSample, 0, 0
-				cs = append(cs, fw.Mk("pairsample/"+name, c))
+				ps := spec.PairsSample
+				if w.hasStorm() {
+					ps = ps/10 + 10 // storm workloads are slow; repetition (below) is their main mode
+				}
+				per := 500
+				for i := 0; i*per < ps; i++ {
+					k := per
+					if ps-i*per < k {
+						k = ps - i*per
+					}
+					c.Mode, c.N, c.Part, c.Of = "pairsample", k, i, 0
+					cs = append(cs, fw.Mk(fmt.Sprintf("pairsample/%s/%d", name, i), c))
+				}
 			}
 			if spec.Random > 0 {
 				per := 100
-				for i := 0; i*per < spec.Random; i++ {
-					c.Mode, c.N, c.Part = "random", per, i
+				nr := spec.Random
+				if w.hasStorm() {
+					nr = nr/10 + 10
+				}
+				for i := 0; i*per < nr; i++ {
+					k := per
+					if nr-i*per < k {
+						k = nr - i*per
+					}
+					c.Mode, c.N, c.Part = "random", k, i
 					cs = append(cs, fw.Mk(fmt.Sprintf("random/%s/%d", name, i), c))
 				}
 			}
